@@ -75,6 +75,9 @@ pub struct Ctx {
     pub dispose: Vec<AtomicU32>,
     pub state: Vec<AtomicU64>,
     pub fault: Vec<AtomicU8>,
+    /// 0: the armed fault fires at the system's next run; k > 0: only in its k-th run since the
+    /// counters were reset (a later inner dispatch of an enclosing batch)
+    pub fault_run: Vec<AtomicU32>,
     /// spin units at begin / in run (free-run jitter)
     pub jitter_begin: Vec<AtomicU32>,
     pub jitter_run: Vec<AtomicU32>,
@@ -155,6 +158,7 @@ impl Ctx {
             dispose: av(n, || AtomicU32::new(0)),
             state: (0..n).map(|i| AtomicU64::new(mix(77, i as u64))).collect(),
             fault: av(n, || AtomicU8::new(0)),
+            fault_run: av(n, || AtomicU32::new(0)),
             jitter_begin: av(n, || AtomicU32::new(0)),
             jitter_run: av(n, || AtomicU32::new(0)),
             hold: av(n, || AtomicU32::new(0)),
@@ -227,8 +231,21 @@ impl Ctx {
         }
     }
 
+    pub fn fault_due(&self, idx: usize, point: u8) -> bool {
+        if self.fault[idx].load(SeqCst) != point {
+            return false;
+        }
+        let k = self.fault_run[idx].load(SeqCst);
+        if k == 0 {
+            return true;
+        }
+        // the run counter is incremented between the fetch and the body
+        let this_run = self.run[idx].load(SeqCst) + if point == FAULT_BEFORE_FETCH { 1 } else { 0 };
+        this_run == k
+    }
+
     fn maybe_fault(&self, idx: usize, point: u8) {
-        if self.fault[idx].load(SeqCst) == point {
+        if self.fault_due(idx, point) {
             // open every gate first: siblings must not wait for a system that will never finish
             self.cond.release_all();
             std::panic::panic_any(HarnessFault(idx));
@@ -260,7 +277,7 @@ impl Ctx {
         self.active.fetch_add(1, SeqCst);
         self.push_event(idx, EvKind::Fetched);
         self.run[idx].fetch_add(1, SeqCst);
-        if self.fault[idx].load(SeqCst) == FAULT_IN_RUN {
+        if self.fault_due(idx, FAULT_IN_RUN) {
             self.active.fetch_sub(1, SeqCst);
         }
         self.maybe_fault(idx, FAULT_IN_RUN);
@@ -572,7 +589,7 @@ impl<'a, 'b, 'c, F: Fam> BatchController<'a, 'b, 'c> for CustomCtl<F> {
         ctx.active.fetch_add(1, SeqCst);
         ctx.push_event(idx, EvKind::Fetched);
         ctx.run[idx].fetch_add(1, SeqCst);
-        if ctx.fault[idx].load(SeqCst) == FAULT_IN_RUN {
+        if ctx.fault_due(idx, FAULT_IN_RUN) {
             ctx.active.fetch_sub(1, SeqCst);
         }
         ctx.maybe_fault(idx, FAULT_IN_RUN);
@@ -636,9 +653,12 @@ impl<'a, F: Fam> MultiDispatchController<'a> for MultiCtl<F> {
             PHASE_RUN => {}
             _ => return 0,
         }
+        // the library has fetched the data already: "before fetch" is the first statement of plan
+        ctx.maybe_fault(idx, FAULT_BEFORE_FETCH);
         ctx.push_event(idx, EvKind::Begin);
         ctx.push_event(idx, EvKind::CtlFetched);
         ctx.run[idx].fetch_add(1, SeqCst);
+        ctx.maybe_fault(idx, FAULT_IN_RUN);
         let rv = data.read_vals();
         let mut dg = mix(idx as u64, rv.len() as u64);
         for v in rv {
@@ -650,6 +670,7 @@ impl<'a, F: Fam> MultiDispatchController<'a> for MultiCtl<F> {
         ctx.state[idx].store(mix(st, dg), SeqCst);
         drop(data);
         ctx.push_event(idx, EvKind::CtlReleased);
+        ctx.maybe_fault(idx, FAULT_AFTER_RELEASE);
         ctx.inner_dispatches[idx].fetch_add(self.planned as u32, SeqCst);
         self.planned
     }
